@@ -122,6 +122,21 @@ fn strategy(_: &Ctx) -> BoxedStrategy<Case> {
         .boxed()
 }
 
+/// One archive whose index files have more entries than fit a 1 MiB table (index: 65 536 entries, index2: 131 072): 140 000
+/// files listed in both, queried all over the table.
+fn large_index(_: &Ctx) -> Vec<Case> {
+    let n = 140_000u32;
+    let files: Vec<FileSpec> = (0..n).map(|i| FileSpec { tail: format!("l/{:03x}/f{:06}.dat", i / 512, i), dat: (i % 8) as u8, slot: (i / 8) as u16, far: 0, fallback_exp: 0, only: 0, synonym: false, foreign: 0 }).collect();
+    let mut queries = vec![];
+    for k in 0..64u32 {
+        queries.push(Query { op: (k % 3) as u8, kind: (k % 2) as u8, pick: (k * 1040 + 7) as u16, flips: vec![k as u16 * 977, 3], salt: format!("s{}", k) });
+    }
+    for k in 0..8u32 {
+        queries.push(Query { op: (k % 3) as u8, kind: if k % 2 == 0 { 2 } else { 8 }, pick: (k * 8000 + 11) as u16, flips: vec![k as u16, 5], salt: format!("a{}", k) });
+    }
+    [true, false].iter().map(|sorted| Case { platform: 0, exps: vec![], chunks: vec![Chunk { exp: 0, cat: 0, chunk: 0, kind: 2, sorted: *sorted, files: files.clone() }], queries: queries.clone() }).collect()
+}
+
 /// Covering sweep: one chunk per (category, expansion, chunk, platform) combination.
 fn sweep(ctx: &Ctx) -> Vec<Case> {
     let mut out = vec![];
@@ -537,6 +552,7 @@ pub fn property() -> Property {
         post: None,
         parts: vec![
             Box::new(Part { name: "covering-sweep", driver: Driver::Enum(sweep), prop, exhaustive: false }),
+            Box::new(Part { name: "large-index", driver: Driver::Enum(large_index), prop, exhaustive: false }),
             Box::new(Part { name: "layouts", driver: Driver::Gen(strategy, 1_500, 40_000), prop, exhaustive: false }),
         ],
     }
